@@ -1094,8 +1094,14 @@ def get_command_instance(
     """
     cname = "%sCommand" % name.lower().capitalize()
     gl = globals()
-    condition = cname not in gl
+    cmdclass = gl.get(cname)
+    condition = (
+        not isinstance(cmdclass, type)
+        or not issubclass(cmdclass, Command)
+        or not hasattr(cmdclass, "args_definition")
+    )
     if condition:
+        # not a concrete command (abstract base classes, exceptions, ...)
         raise UnknownCommand(name)
     condition = (
         checkexists
